@@ -257,16 +257,24 @@ func prepare(r *Resp, relay int, slotTs uint64, parent [32]byte) *prepared {
 
 // servedRec is one answer a relay actually gave.
 type servedRec struct {
-	Relay int
-	Idx   int
-	At    time.Time
+	Relay   int
+	Variant int // which (slot, parent, pubkey) was asked for
+	Idx     int
+	At      time.Time
+}
+
+// relayVariant is what a relay answers to requests for one (slot, parent, pubkey).
+type relayVariant struct {
+	path     string
+	script   []*prepared
+	requests int
 }
 
 type relayDouble struct {
-	idx    int
-	srv    *httptest.Server
-	script []*prepared
-	done   chan struct{}
+	idx      int
+	srv      *httptest.Server
+	variants []*relayVariant
+	done     chan struct{}
 
 	mu       sync.Mutex
 	requests int
@@ -275,11 +283,10 @@ type relayDouble struct {
 	arrivals []time.Time // arrival time of request n
 	answered []time.Time // time the answer to request n was written (zero: never)
 	maxOver  time.Duration
-	wantPath string
 }
 
-func newRelay(idx int, script []*prepared, wantPath string, done chan struct{}) *relayDouble {
-	r := &relayDouble{idx: idx, script: script, done: done, wantPath: wantPath}
+func newRelay(idx int, variants []*relayVariant, done chan struct{}) *relayDouble {
+	r := &relayDouble{idx: idx, variants: variants, done: done}
 	r.srv = httptest.NewServer(http.HandlerFunc(r.handle))
 	return r
 }
@@ -295,15 +302,26 @@ func (r *relayDouble) handle(w http.ResponseWriter, req *http.Request) {
 	r.requests++
 	r.arrivals = append(r.arrivals, arrived)
 	r.answered = append(r.answered, time.Time{})
-	if req.URL.Path != r.wantPath {
+	vi := -1
+	for k, v := range r.variants {
+		if v.path == req.URL.Path {
+			vi = k
+		}
+	}
+	if vi < 0 {
 		r.badPath++
+		r.mu.Unlock()
+		w.WriteHeader(http.StatusNoContent)
+		return
 	}
+	v := r.variants[vi]
+	n := v.requests
+	v.requests++
 	r.mu.Unlock()
-	n := reqNo
-	if n >= len(r.script) {
-		n = len(r.script) - 1
+	if n >= len(v.script) {
+		n = len(v.script) - 1
 	}
-	p := r.script[n]
+	p := v.script[n]
 	if p.hang {
 		select {
 		case <-r.done:
@@ -330,7 +348,7 @@ func (r *relayDouble) handle(w http.ResponseWriter, req *http.Request) {
 	}
 	now := time.Now()
 	r.mu.Lock()
-	r.served = append(r.served, servedRec{Relay: r.idx, Idx: n, At: now})
+	r.served = append(r.served, servedRec{Relay: r.idx, Variant: vi, Idx: n, At: now})
 	r.answered[reqNo] = now
 	if over := now.Sub(arrived) - p.lat; over > r.maxOver {
 		r.maxOver = over
